@@ -101,6 +101,33 @@ def observe_accept(served, ts, own, proposals, peer_max):
         else:
             ok = not served_now
         dispatch_ok = dispatch_ok and ok
+    # one _loop() serving a whole sequence of requests: every accepted id several times, in a mixed order (the
+    # same abstract syntax may have been accepted on several ids; each request is served on the id it arrived on)
+    accepted_ids = sorted(acc.sop_classes_as_scp)
+    if accepted_ids:
+        order = (accepted_ids + accepted_ids[::-1] + accepted_ids[::2] + accepted_ids)[:40]
+        queue = []
+        for cid in order:
+            msg = dimsemessages.CEchoRQMessage()
+            msg.sop_class_uid = acc.sop_classes_as_scp[cid][1]
+            msg.message_id = 1
+            queue.append((msg, cid))
+
+        def receive_all(q=queue):
+            if q:
+                return q.pop(0)
+            acc.is_killed = True
+            raise exceptions.DCMTimeoutError()
+        acc.receive = receive_all
+        acc.is_killed = False
+        acc._served = []
+        try:
+            acc._loop()
+        except (exceptions.DCMTimeoutError, exceptions.ClassNotSupportedError):
+            pass
+        want = [(acc.sop_classes_as_scp[cid][0], str(acc.sop_classes_as_scp[cid][1]), str(acc.sop_classes_as_scp[cid][2]))
+                for cid in order]
+        dispatch_ok = dispatch_ok and acc._served == want
     term = '(mkac %s %d %s %s %s %s %d %s %s)' % (
         c_cfg(served, ts), own, pm.c_pdu(rq_model),
         'None' if ac is None else '(Some %s)' % pm.c_pdu(pm.from_impl(ac)),
